@@ -32,7 +32,7 @@ Links == {[t |-> "../r", abs |-> FALSE, ext |-> FALSE, comps |-> <<"..", "r">>],
           [t |-> "t", abs |-> FALSE, ext |-> FALSE, comps |-> <<"t">>]}
 
 Live(c) ==
-  LET s0 == [names |-> {}, inodes |-> <<>>, handles |-> {}, links |-> Links]
+  LET s0 == [names |-> {}, inodes |-> <<>>, handles |-> {}, links |-> Links, mounts |-> {}]
       s1 == Mk(Mk(Mk(s0, USR, Obj("dir", "-", "-", 493, 0), 1), TT, Obj("file", "T", "-", 420, 0), 2), RR, Obj("dir", "-", "-", 493, 0), 3)
       dbase == IF c.dk = "symdir" THEN RR ELSE UD
       s2 == CASE c.dk = "dir" -> Mk(s1, UD, Obj("dir", "-", "-", 493, 0), 4)
